@@ -76,6 +76,24 @@ func main() {
 		fmt.Fprintf(os.Stderr, "gen: enumeration of %d expressions (stride %d), %d cases\n", total, stride, cases)
 		return
 	}
+	if *profile == "pack" {
+		// many small shapes as the rules of one grammar per template variant (entrypoint = the rule): -n bounds the
+		// number of enumerated expressions taken in (0 = all)
+		cs := gen.PackCases(*seed, *n, []gen.Tmpl{{}, {Opt: true}})
+		for j, c := range cs {
+			fmt.Fprintln(w, c.Sexp())
+			if j == 0 || cs[j-1].Tmpl != c.Tmpl {
+				if pw != nil {
+					fmt.Fprintf(pw, "## %s tmpl=%s wf=%v\n%s", c.ID, c.Tmpl.Name(), c.WF, gen.GrammarText(c.Rules))
+				}
+				emitPEG(c)
+			}
+		}
+		w.Flush()
+		f.Close()
+		fmt.Fprintf(os.Stderr, "gen: packed grammar, %d cases\n", len(cs))
+		return
+	}
 	p := gen.ProfileByName(*profile)
 	cases := 0
 	for i := 0; i < *n; i++ {
